@@ -87,6 +87,8 @@ type Sim struct {
 	// (site ids below HarnessSiteBase) into no-ops: only seam calls and
 	// channel/lock operations remain scheduling points.
 	Coarse bool
+	// WatchdogMs overrides the real-time watchdog for this run (0 = default).
+	WatchdogMs int
 
 	tasks  [maxTasks]task
 	ntasks int
@@ -270,7 +272,11 @@ type pollFd struct {
 func (s *Sim) mainWait() {
 	pfd := pollFd{fd: int32(s.mainR), events: 1}
 	for {
-		n, _, e := syscall.Syscall(syscall.SYS_POLL, uintptr(unsafe.Pointer(&pfd)), 1, uintptr(watchdogMs))
+		wd := watchdogMs
+		if s.WatchdogMs > 0 {
+			wd = s.WatchdogMs
+		}
+		n, _, e := syscall.Syscall(syscall.SYS_POLL, uintptr(unsafe.Pointer(&pfd)), 1, uintptr(wd))
 		if e == syscall.EINTR {
 			continue
 		}
@@ -278,7 +284,7 @@ func (s *Sim) mainWait() {
 			infra("poll: " + e.Error())
 		}
 		if n == 0 {
-			infraExit(fmt.Sprintf("watchdog: no scheduling point for %d ms (task %d %q, step %d)", watchdogMs, s.cur, s.curName(), s.step), WatchdogExit)
+			infraExit(fmt.Sprintf("watchdog: no scheduling point for %d ms (task %d %q, step %d)", wd, s.cur, s.curName(), s.step), WatchdogExit)
 		}
 		break
 	}
